@@ -523,6 +523,15 @@ func cmdCheck(args []string) int {
 						ok = true
 						v.Detail += " | go test -race: " + strings.SplitN(raceReport, "\n\n", 2)[0]
 					}
+					// ... or by concurrent results that differ from the sequential ones
+					if !ok && chk.Race && strings.HasSuffix(v.Label, "no-shared-write") {
+						for _, e := range r.Events {
+							if strings.HasSuffix(e, "concurrent-equals-sequential:false") {
+								ok = true
+								v.Detail += " | native: concurrent results differ from sequential ones"
+							}
+						}
+					}
 				case "panic":
 					ok = r.Panic != ""
 					v.Detail += " | native: " + r.Panic
